@@ -77,7 +77,7 @@ def averageColumn (rows : List Row) (c : Str) : FVal :=
   let xs := rows.filterMap (fun r => numOf (Row.getD r c))
   if xs.isEmpty then .fin 0 else (FVal.sum xs).divNat xs.length
 
-def sGroupKey : Str := ofString "GroupKey"
+def sGroupKey : Str := [71, 114, 111, 117, 112, 75, 101, 121]
 
 namespace Grouped
 
